@@ -40,6 +40,10 @@ TypingFails(e) ==
         \cup (IF answered /\ t.ok
               THEN Chk("X:TypingValues", r.up = t.up /\ r.down = t.down /\ r.tgt = t.tgt /\ (c.role = "module" \/ r.ph = t.ph))
               ELSE {}))
+  \* C17, on a record that is not valid (the class's own structure does not occur in it, or an extra site makes it illegal):
+  \* every query raises the invalid-sequence error - whatever an earlier look at the same record object left behind
+  \cup (IF r.exc = "" /\ nuc /\ Len(c.toks) > 0 /\ ~t.ok /\ Len(r.qexc) > 0
+        THEN Chk("C17:NotValidRaises", AllQueriesRaised(r) /\ r.qinv) ELSE {})
   \* C04: what is reported is a pair of true restriction ends and the stretch between them
   \cup (IF reports
         THEN Chk("C04:DigestAgreement", DigestWitness(w, c.enz, c.role, r.up, r.down, r.tgt, << >>))
